@@ -222,8 +222,8 @@ func readConfig(b []byte, smb bool) DemonCfg {
 // ---- working hours, from the Demon's side (src/core/Command.c:3263-3279 InWorkingHours)
 
 type Hours struct {
-	Enabled                        bool
-	StartH, StartM, EndH, EndM     uint32
+	Enabled                    bool
+	StartH, StartM, EndH, EndM uint32
 }
 
 func unpackHours(w uint32) Hours {
